@@ -134,20 +134,60 @@ theorem C04_array_key_counterexample :
       = .ok { name := "k", number := 2, schema := .array (.string none none none) none none } := by
   decide
 
-/-- `schema-diff:str:kind:str->key[id62-pattern]` -/
+/-- `schema-diff:array:str:kind:str->key[id62-pattern]` (the non-array case is fixed by b1eebc1:
+the reader keeps a field marked as J5 string a string): array items lose the mark -/
 theorem C04_string_id62_pattern_counterexample :
     roundtrip { name := "s", number := 2,
-                schema := .single (.string none (some { pattern := some id62Pattern }) none) }
-      = .ok { name := "s", number := 2, schema := .single (.key (some .id62) none none) } := by
+                schema := .array (.string none (some { pattern := some id62Pattern }) none) none none }
+      = .ok { name := "s", number := 2, schema := .array (.key (some .id62) none none) (some {}) none } := by
   decide
 
-/-- `reader-error:key[kf=cus,id62-pattern,lr]` -/
+/-- `reader-error:array:key[kf=cus,id62-pattern,lr]` (non-array case fixed by b1eebc1) -/
 theorem C04_custom_id62_key_lr_counterexample :
     (roundtrip { name := "k", number := 2,
-                 schema := .single (.key (some (.custom id62Pattern)) none (some { text := "f1/df/s0/ds0/q0/qi-" })) }).isErr = true := by
+                 schema := .array (.key (some (.custom id62Pattern)) none (some { text := "f1/df/s0/ds0/q0/qi-" })) none none }).isErr = true := by
   decide
 
+/-- fixed findings (b1eebc1), now inside `WFField`: a string whose pattern is the id62 pattern,
+also with list rules, and a custom key with that pattern and list rules, read back as declared -/
+example :
+    let s : Property := {
+      name := "s", number := 2,
+      schema := .single (.string none (some { pattern := some id62Pattern }) (some { text := "f0/df/s0/ds0/q1/qi-" })) }
+    let k : Property := {
+      name := "k", number := 2,
+      schema := .single (.key (some (.custom id62Pattern)) none (some { text := "f1/df/s0/ds0/q0/qi-" })) }
+    WFField s = true ∧ WFField k = true ∧ normField k = k := by
+  decide
+
+/-- `schema-diff:map:key:kind:key->str[kf=]` and `schema-diff:map:value-list-rules:dropped`: the
+annotations of a map's values sit on the entry's value field, which the reader never consults -/
+theorem C04_map_value_annotations_counterexample :
+    roundtrip { name := "m", number := 2, schema := .map (.key none none none) none none }
+      = .ok { name := "m", number := 2, schema := .map (.string none none none) none none } ∧
+    roundtrip { name := "m", number := 2,
+                schema := .map (.bool none (some { text := "f1/df/s0/ds0/q0/qi-" })) none none }
+      = .ok { name := "m", number := 2, schema := .map (.bool none none) none none } := by
+  constructor <;> decide
+
+/-- `reader-error:array:any` / `reader-error:map:any` (since a9e5f7d the reader rejects them) -/
+theorem C04_container_of_any_counterexample :
+    (roundtrip { name := "a", number := 2, schema := .array (.any false [] none) none none }).isErr = true ∧
+    (roundtrip { name := "a", number := 2, schema := .map (.any false [] none) none none }).isErr = true := by
+  constructor <;> decide
+
 /-! ## non-vacuity -/
+
+/-- maps (writer fix d9448b1, reader fix ff3022c): required, pair counts, singleForm, value rules -/
+example : WFField {
+    name := "m", number := 5, required := true, description := "a map",
+    schema := .map (.string none (some { minLength := some 2, pattern := some "^[a-z]+$" }) none)
+                (some { minPairs := some 1, maxPairs := some 3 }) (some "thing") } = true ∧
+  WFField {
+    name := "m", number := 5,
+    schema := .map (.enum { name := "En", defaultPrefix := "EN_", options := ["A", "B"] } (some { inn := ["A"] }) none) none none } = true := by
+  decide
+
 
 example : WFField {
     name := "i", number := 2, required := true, description := "count",
@@ -178,6 +218,36 @@ example : (roundtrip {
     name := "e", number := 4,
     schema := .single (.enum { name := "En", defaultPrefix := "EN_", options := ["A", "B", "C"] } none
                 (some { text := "f1/df61/s0/ds0/q0/qi-", defaultFilters := ["a"] })) }).isErr = true := by
+  decide
+
+/-- **Enum declarations.** The canonical declaration the reader returns for ANY declared enum:
+the effective prefix (declared, or the default), and as options `UNSPECIFIED` = 0 followed by the
+declared options in order, numbered from 1, as short names — whether they were written with or
+without the prefix, and whether or not `UNSPECIFIED` was declared explicitly first. -/
+theorem C04_enum_decl_normal_form (d : EnumDecl) :
+    normDecl d = { name := d.name, declPrefix := some d.pfx, defaultPrefix := d.pfx,
+                   options := "UNSPECIFIED" :: d.rest.map (normEnumName d) } := by
+  have hnum : ∀ (k : Nat) (l : List String),
+      (numberFrom d.pfx k l).map (fun v => trimPrefix d.pfx v.1) = l.map (normEnumName d) := by
+    intro k l
+    induction l generalizing k with
+    | nil => rfl
+    | cons o r ih => simp [numberFrom, normEnumName, ih]
+  simp only [normDecl, values_general d, List.map_cons, trimPrefix_append, hnum]
+
+/-- enum declarations of every spelling are inside `WFField`: declared prefix, an option written
+with the prefix, explicit leading UNSPECIFIED; rule names and default filters in both spellings -/
+example : WFField {
+    name := "e", number := 4,
+    schema := .single (.enum { name := "En", declPrefix := some "XX_", defaultPrefix := "EN_",
+                               options := ["XX_UNSPECIFIED", "A", "XX_B", "C"] }
+                (some { inn := ["A", "XX_B"], notIn := ["UNSPECIFIED"] })
+                (some { text := "f1/df43/s0/ds0/q0/qi-", defaultFilters := ["XX_C"] })) } = true := by
+  decide
+
+example : normDecl { name := "En", declPrefix := some "XX_", defaultPrefix := "EN_",
+                     options := ["XX_UNSPECIFIED", "A", "XX_B", "C"] }
+    = { name := "En", declPrefix := some "XX_", defaultPrefix := "XX_", options := ["UNSPECIFIED", "A", "B", "C"] } := by
   decide
 
 /-- the normal form is not the identity: e.g. `exclusiveMaximum = false` disappears -/
